@@ -166,6 +166,11 @@ pub fn run(cfg: &Cfg) {
                 let m = crate::c16_doc::mutate(&kj, &mut r);
                 crate::c16_doc::key_case(&mut sink, &m, "mutated");
             }
+            if i % 8 == 0 {
+                for m in crate::c16_doc::respelled_keys(k) {
+                    crate::c16_doc::key_case(&mut sink, &m, "respelled");
+                }
+            }
         }
         for st in &layout.steps {
             round_trip::<in_toto::models::step::Step>(&mut sink, "Step", st);
